@@ -254,6 +254,15 @@ func OracleC04(run *common.Run, id string, res *Result) int {
 	if res.DstMax > res.Keff {
 		fail("inflight-dst", fmt.Sprintf("%d destination operations in flight, Concurrency=%d (effective %d)", res.DstMax, c.K, res.Keff))
 	}
+	if c.OwnLim {
+		// the limiter itself (read through the verif hook): no operation without a permit, no permit lost
+		if res.LimBad != "" {
+			fail("op-without-permit", res.LimBad)
+		}
+		if res.LimFree != res.Keff {
+			fail("permit-leak", fmt.Sprintf("%d of %d permits are free after the call returned", res.LimFree, res.Keff))
+		}
+	}
 	N := len(g.Nodes)
 	type pos []int
 	cnt := map[string]pos{}
@@ -480,6 +489,10 @@ func Drive(run *common.Run, prop string, b Budget) {
 		if c.Sched {
 			run.Count("controlled-schedule(synctest)")
 		}
+		if c.OwnLim && res.LimProbes > 0 {
+			run.Count("limiter read at every event (verif hook)")
+			run.Extra["limiter_probes"] = maxInt(run.Extra["limiter_probes"], 0) + res.LimProbes
+		}
 		if c.Stream == "twinreach" && res.Err == nil && (c.Dst == "oci" || c.Dst == "ocire" || (c.Dst == "file" && len(c.Titled) > 0)) {
 			miss := false
 			for i := range g.Reach(res.Root2) {
@@ -690,6 +703,9 @@ func Drive(run *common.Run, prop string, b Budget) {
 	}
 	if T != nil && b.Sched > 0 {
 		floor("controlled schedules", run.Dist["controlled-schedule(synctest)"], b.Sched)
+	}
+	if prop == "C04" && b.Main+b.Contention >= 100 {
+		floor("CopyGraph runs whose limiter was read at every event", run.Dist["limiter read at every event (verif hook)"], 30)
 	}
 }
 
